@@ -92,6 +92,7 @@ func init() {
 				e.errf("cannot start cvc5: %v", err)
 			}
 			ns.Queries, ns.Sat, ns.Unsat, ns.Unknown, ns.Time = e.sol.Queries, e.sol.Sat, e.sol.Unsat, e.sol.Unknown, e.sol.Time
+			ns.XEvery = 10 // modular harnesses issue few queries: cross-check every 10th
 			e.sol.Close()
 			*e.sol = *ns
 		}
